@@ -19,6 +19,7 @@ fn run_case(x: &Sx) -> Sx {
         "imap" => maps::run_imap(&l[1..]),
         "cov" => maps::run_cov(&l[1..]),
         "bcov" => maps::run_bcov(&l[1..]),
+        "sbcov" => maps::run_sbcov(&l[1..]),
         "alg" => algebra::run_alg(&l[1..]),
         "split" => algebra::run_split(&l[1..]),
         "merge" => algebra::run_merge(&l[1..]),
